@@ -49,6 +49,9 @@ func judgeAfter(in, prev []byte) (bool, string) {
 	if err := p.UnmarshalBinary(b); err != nil {
 		return false, "" // nothing is asserted about rejected inputs
 	}
+	for i := range b {
+		b[i] = ^b[i] // the receive buffer is reused: "verify, forward or log a received frame without it changing"
+	}
 	out, err := p.MarshalBinary()
 	if err != nil {
 		return true, fmt.Sprintf("the decoder accepts %x but the decoded frame cannot be re-encoded: %v", in, err)
